@@ -25,7 +25,7 @@ RULE = ("cases: trees with timeouts (0, half-integers that never tie, integers t
         "pair (timeout without effect vs no timeout); distinct = distinct scenario digest")
 ASSUMPTIONS = RT_ASSUMPTIONS
 
-PROFILE = S.GENERAL.but(
+PROFILE = S.GENERAL.but(p_rerun=8,
     p_wild=45, p_nested=26, p_forever=10, p_raise=12, p_critical=30,
     timeouts=((None, 4), (0, 1), (0.5, 1), (1, 2), (1.5, 1), (2, 2), (2.5, 1), (3, 2),
               (3.5, 1), (4, 1), (4.5, 1), (5, 1), (6, 1), (8, 1), (12, 1)),
@@ -80,7 +80,8 @@ def evaluate_one(case):
             res.label('expiry:T=0')
     # ---- the timeout has no effect when everything finishes strictly before T
     twins = 0
-    if ix.terminated():
+    # (not for second runs: the first runs of the two twins differ, hence their clocks)
+    if ix.terminated() and not getattr(trace, 'rerun', False):
         for sp in ix.scheds():
             sid = sp['id']
             if sp['timeout'] is None or twins >= 2:
